@@ -37,11 +37,15 @@ def shards(tier, seed):
     return [{'shard': i, 'of': NSH} for i in range(NSH)]
 
 
-def run(prog, cache):
+def run(prog, cache, items=None):
+    """items: the stack item limit of the run (default: a roomy one) - a
+    signature instruction needs no more room than its operands take"""
     functions = env.mods()[0]
+    lim = env.roomy_limits(prog)
+    if items is not None:
+        lim['stack_max_items'] = items
     try:
-        _, stack, c = functions.run_script(prog, cache,
-                                           **env.roomy_limits(prog))
+        _, stack, c = functions.run_script(prog, cache, **lim)
         return list(stack.deque), None
     except BaseException as e:
         return None, e
@@ -144,7 +148,12 @@ def judge_check_sig(ctx, case, parent_expect=None):
     prog = pre + isa.push1(sig) + isa.push1(key) + isa.op('CHECK_SIG') \
         + bytes([allowed])
     want = expect_check_sig(ctx, fields, key, sig, allowed)
-    st, exc = run(prog, dict(fields))
+    # every third case under an item limit that is exactly what the operands
+    # (and the items below them) take
+    St.n += 1
+    tight = len(below) + 2 if St.n % 3 == 0 else None
+    ctx.tab('item_limit', 'exactly-the-operands' if tight else 'roomy')
+    st, exc = run(prog, dict(fields), tight)
     got = observe(st, exc)
     ctx.evaluated()
     ctx.tab('check_sig_expected', want)
@@ -168,7 +177,7 @@ def judge_check_sig(ctx, case, parent_expect=None):
     # _VERIFY form: raises exactly when the plain form does not yield True
     progv = pre + isa.push1(sig) + isa.push1(key) \
         + isa.op('CHECK_SIG_VERIFY') + bytes([allowed])
-    stv, excv = run(progv, dict(fields))
+    stv, excv = run(progv, dict(fields), tight)
     if want is True:
         if excv is not None or stv != list(below):
             ctx.violation('check-sig-verify-rejects', 'CHECK_SIG_VERIFY '
